@@ -18,8 +18,8 @@ THEOREMS = [
 TIE_MODULES = ['Tie.Binders']
 TRANSLATORS = ('binders',)
 ASSUMPTIONS = c05.ASSUMPTIONS + [
-    'the memo of the trampoline is transparent for template calls whose arguments are compared by Python equality (C07 proves transparency for keys '
-    'with a correct equality); argument values that are == but not interchangeable (1, True, 1.0) are the recorded known finding',
+    'the memo of the trampoline is outside the names layer: transparent for template calls provided the key equality is exact (C07 proves transparency for keys '
+    'with a correct equality; the equal-values families exercise 1 / True, also nested)',
     'the textual expansion (harness/envgen.expand) refuses call sites whose arguments mention a name that the body rebinds (no renaming is attempted)',
 ]
 
@@ -66,9 +66,14 @@ def hand_programs():
             mk = (lambda args: [(q, a) for q, a in zip(four[1], args)][::-1]) if kwform else (lambda args: [(None, a) for a in args])
             out.append((f'one-argument-differs-{i}{"k" if kwform else ""}', {'rules': [('start', ('choice', [
                 ('seq', [('call', 0, mk(base)), L('!')]), ('call', 0, mk(other))]))], 'templates': [four]}))
-    # == but not interchangeable argument values (known finding: shared memo entry)
-    out.append(('equal-values', {'rules': [('start', ('seq', [('call', 0, [(None, ('py', 101, []))]), ('call', 0, [(None, ('py', 11, []))])]))],
+    # == but not interchangeable argument values must not share a memo entry (fixed defect), also nested in lists and tuples
+    out.append(('equal-values', {'rules': [('start', ('seq', [('call', 0, [(None, ('py', 101, []))]), ('call', 0, [(None, ('py', 11, []))]),
+                                                              ('call', 0, [(None, ('py', 101, []))])]))],
                                  'templates': [('T0', ['xa'], V('xa'))]}))
+    out.append(('equal-values-nested', {'rules': [('start', ('let', 'ya', ('py', 101, []), ('let', 'yb', ('py', 11, []), ('seq', [
+        ('call', 0, [(None, ('py', 8, ['ya']))]), ('call', 0, [(None, ('py', 8, ['yb']))]),
+        ('call', 0, [(None, ('py', 1, ['ya', 'yb']))]), ('call', 0, [(None, ('py', 1, ['yb', 'ya']))])]))))],
+                                        'templates': [('T0', ['xa'], V('xa'))]}))
     return out
 
 
@@ -81,8 +86,7 @@ def build_jobs(tier, seed):
             Q = dict(P)
             Q['named'] = named
             jobs.append({'id': f'hand-{fam}-{named}', 'family': fam, 'program': Q, 'inputs': inputs, 'seed': seed, 'expand': True,
-                         # the names layer has no memo: for this family the difference to the real parser is the finding itself
-                         'memo_sensitive': fam == 'equal-values'})
+                         'memo_sensitive': False})
     n = 600 if tier == "quick" else 6000
     for i in range(n):
         g = envgen.Gen(random.Random(rng.randrange(1 << 30)), shadow=0.0, named=('envm' if i % 3 == 0 else None))
@@ -98,9 +102,6 @@ def run(tier, seed, lean):
     jobs = build_jobs(tier, seed)
     results = envrun.run_jobs(jobs)
     cov, violations, broken = c05.summarise(results, jobs)
-    for v in violations:
-        if v.get('sig', '').startswith('equal-values'):
-            v['finding_class'] = 'equal-values-share-memo'
     cov['rule'] = ('hand-written families (same template at the same position with different arguments, nested in itself, positional/keyword in any order, '
                    'argument values of every type including unhashable ones, string literals as value and parser, compound arguments that mention '
                    'call-site names and are passed on, recursion, classes with parameters) and typed random programs, with and without a grammar header. '
